@@ -32,30 +32,66 @@ def _read(repo, rel):
     return open(p, encoding="utf-8", errors="replace").read()
 
 
-DECL = re.compile(r"^%(left|right|nonassoc)\s+(.*?)\s*$")
+DIRECTIVE = re.compile(r"%(left|right|nonassoc|precedence)\b")
 TOK = re.compile(r"'(?:[^'\\]|\\.)'|[A-Za-z_][A-Za-z0-9_]*")
 
 
+def strip_c_comments(text):
+    """remove /* … */ and // … comments (keeping the line structure) outside of character literals"""
+    out, i, n = [], 0, len(text)
+    while i < n:
+        c = text[i]
+        if c == "'" and i + 2 < n:                       # character literal such as '/' or '\''
+            j = i + 1
+            if text[j] == "\\":
+                j += 1
+            j += 1
+            if j < n and text[j] == "'":
+                out.append(text[i:j + 1])
+                i = j + 1
+                continue
+        if text.startswith("/*", i):
+            j = text.find("*/", i + 2)
+            j = n if j < 0 else j + 2
+            out.append("".join(ch if ch == "\n" else " " for ch in text[i:j]))
+            i = j
+        elif text.startswith("//", i):
+            j = text.find("\n", i)
+            j = n if j < 0 else j
+            i = j
+        else:
+            out.append(c)
+            i += 1
+    return "".join(out)
+
+
 def precedence_block(yy):
-    """[(assoc, [tokens])] in file order = ascending precedence.  The block is the maximal run of
-    %left/%right/%nonassoc lines before the first `%{` that follows the %type declarations."""
-    lines = yy.split("\n")
-    idx = [i for i, l in enumerate(lines) if DECL.match(l)]
-    if not idx:
+    """[(assoc, [tokens], line)] in file order = ascending precedence.
+
+    Read the way bison reads it: every %left/%right/%nonassoc/%precedence directive in the declarations part (before the
+    first `%%`) opens a new level; its tokens are everything up to the next `%` directive, however the lines are broken,
+    with comments and `<type>` tags ignored."""
+    decl_end = yy.find("\n%%")
+    if decl_end < 0:
+        raise Lost("config_parser.yy: no `%%` separator found")
+    head = yy[:decl_end]
+    # prologue blocks %{ … %} are C code, not declarations
+    head = re.sub(r"%\{.*?%\}", lambda m: "".join(ch if ch == "\n" else " " for ch in m.group(0)), head, flags=re.S)
+    head = strip_c_comments(head)
+    ms = list(DIRECTIVE.finditer(head))
+    if not ms:
         raise Lost("config_parser.yy: no %left/%right/%nonassoc declaration found")
-    # must be contiguous (blank lines allowed): otherwise the block was split and the order is ambiguous
-    for a, b in zip(idx, idx[1:]):
-        if any(lines[k].strip() for k in range(a + 1, b)):
-            raise Lost("config_parser.yy: precedence declarations are not one contiguous block (lines %d..%d)" % (a + 1, b + 1))
     out = []
-    for i in idx:
-        m = DECL.match(lines[i])
-        toks = TOK.findall(m.group(2))
-        if not toks or " ".join(toks) != " ".join(m.group(2).split()):
-            raise Lost("config_parser.yy:%d: cannot tokenise precedence declaration %r" % (i + 1, lines[i]))
-        out.append((m.group(1), toks, i + 1))
-    if "%glr-parser" not in yy and "%pure-parser" not in yy:
-        raise Lost("config_parser.yy: parser directives not found (file rewritten?)")
+    for m in ms:
+        nxt = re.compile(r"^[ \t]*%", re.M).search(head, m.end())
+        body = head[m.end(): nxt.start() if nxt else len(head)]
+        body = re.sub(r"<[^>]*>", " ", body)
+        toks = TOK.findall(body)
+        leftover = TOK.sub(" ", body).strip()
+        if not toks or leftover:
+            raise Lost("config_parser.yy:%d: cannot tokenise precedence declaration (%r left over)" % (head.count("\n", 0, m.start()) + 1, leftover[:40]))
+        assoc = "nonassoc" if m.group(1) == "precedence" else m.group(1)
+        out.append((assoc, toks, head.count("\n", 0, m.start()) + 1))
     return out
 
 
@@ -76,7 +112,8 @@ def unescape_flex(pat):
     return "".join(out)
 
 
-LEXRULE = re.compile(r"^(\S+)\s+(?:\{[^}]*\breturn\s+(T_[A-Z_]+)\s*;\s*\}|return\s+(T_[A-Z_]+)\s*;)\s*$")
+LEXRULE = re.compile(r"^(\S+)\s+(.*)$")
+LEXRET = re.compile(r"\breturn\s+(T_[A-Z_]+)\s*;")
 
 
 def lexemes(ll):
@@ -85,7 +122,10 @@ def lexemes(ll):
         m = LEXRULE.match(line.strip())
         if not m:
             continue
-        tok = m.group(2) or m.group(3)
+        r = LEXRET.search(m.group(2))          # the first `return TOKEN;` of the action, whatever surrounds it
+        if not r:
+            continue
+        tok = r.group(1)
         pat = m.group(1)
         # flex: characters + - | < > = ! & % ^ * / are written escaped or bare; letters bare
         txt = []
@@ -118,51 +158,108 @@ def lexemes(ll):
     return sorted(found.items())
 
 
-BINRULE = re.compile(r"\|\s*rterm\s+(T_[A-Z_]+)\s+rterm\s*\{\s*MakeRBinaryOp<([A-Za-z]+)>\(&\$\$,\s*\$1,\s*\$3,")
-UNRULE = re.compile(r"\|\s*('(?:[^'\\]|\\.)'|T_[A-Z_]+)\s+rterm(?:\s+%prec\s+([A-Z_]+))?\s*\{(.*?)\n\t\}", re.S)
+def _action_after(text, pos):
+    """the brace-balanced action block starting at or after pos: (content, end index)"""
+    i = text.find("{", pos)
+    if i < 0:
+        return "", pos
+    depth, j = 0, i
+    while j < len(text):
+        if text[j] == "{":
+            depth += 1
+        elif text[j] == "}":
+            depth -= 1
+            if depth == 0:
+                return text[i + 1:j], j + 1
+        j += 1
+    return text[i + 1:], len(text)
+
+
+def _nonterminal(yy, name):
+    m = re.search(r"^%s\s*:" % re.escape(name), yy, re.M)
+    if not m:
+        raise Lost("config_parser.yy: nonterminal %s not found" % name)
+    # up to the terminating `;` at the start of a line (possibly indented)
+    e = re.compile(r"^\s*;\s*$", re.M).search(yy, m.end())
+    return yy[m.end(): e.start() if e else len(yy)]
+
+
+def _alternatives(body):
+    """[(symbols before the action, action text)] of one nonterminal; nested braces are respected"""
+    alts, i, cur = [], 0, ""
+    while i < len(body):
+        c = body[i]
+        if c == "{":
+            act, i = _action_after(body, i)
+            alts.append((cur.strip(), act))
+            cur = ""
+            continue
+        if c == "|":
+            if cur.strip():
+                alts.append((cur.strip(), ""))
+            cur = ""
+        else:
+            cur += c
+        i += 1
+    if cur.strip():
+        alts.append((cur.strip(), ""))
+    return alts
 
 
 def rules(yy):
-    binary = sorted(set(BINRULE.findall(yy)))
+    yy = strip_c_comments(yy)
+    grammar = yy[yy.find("\n%%"):]
+    binary, unary, postfix = {}, [], []
+    seen_ternary = seen_set = False
+    for nt in re.findall(r"^([a-z_][a-z0-9_]*)\s*:", grammar, re.M):
+        try:
+            body = _nonterminal(grammar, nt)
+        except Lost:
+            continue
+        for syms, action in _alternatives(body):
+            w = syms.split()
+            prec = None
+            if "%prec" in w:
+                k = w.index("%prec")
+                prec = w[k + 1] if k + 1 < len(w) else None
+                w = w[:k]
+            w = [x for x in w if not x.startswith("%dprec") and not x.isdigit()]
+            cls = re.search(r"\b([A-Z][A-Za-z]*Expression)\b", action)
+            if len(w) == 3 and w[0] == "rterm" and w[2] == "rterm" and re.fullmatch(r"T_[A-Z_]+", w[1]) and cls:
+                if w[1] in binary and binary[w[1]] != cls.group(1):
+                    raise Lost("config_parser.yy: binary operator token %s has two rules" % w[1])
+                binary[w[1]] = cls.group(1)
+            elif len(w) == 2 and w[1] == "rterm" and (re.fullmatch(r"T_[A-Z_]+", w[0]) or re.fullmatch(r"'.'", w[0])) \
+                    and w[0] in ("T_MULTIPLY", "T_BINARY_AND", "T_PLUS", "T_MINUS", "'!'", "'~'"):
+                if cls:
+                    c = cls.group(1)
+                    if c == "SubtractExpression" and re.search(r"MakeLiteral\s*\(\s*0\s*\)", action):
+                        c = "SubtractExpression(0,_)"
+                elif re.search(r"\$\$\s*=\s*\$2\s*;", action):
+                    c = "identity"
+                else:
+                    raise Lost("config_parser.yy: cannot read the action of prefix rule %s rterm" % w[0])
+                unary.append((w[0], prec or w[0], c))
+            elif w == ["rterm", "'.'", "T_IDENTIFIER"]:
+                postfix.append("'.'")
+            elif w == ["rterm", "'['", "rterm", "']'"]:
+                postfix.append("'['")
+            elif w == ["rterm", "'('", "rterm_items", "')'"]:
+                postfix.append("'('")
+            elif w == ["rterm", "'?'", "rterm", "':'", "rterm"]:
+                seen_ternary = True
+            elif w == ["rterm", "combined_set_op", "rterm"]:
+                seen_set = True
     if len(binary) < 20:
-        raise Lost("config_parser.yy: expected the 20 `rterm TOKEN rterm { MakeRBinaryOp<...> }` rules, found %d" % len(binary))
-    toks = [b[0] for b in binary]
-    if len(set(toks)) != len(toks):
-        raise Lost("config_parser.yy: a binary operator token has two rules")
-    # prefix rules inside the rterm_no_side_effect_no_dict nonterminal only
-    m = re.search(r"^rterm_no_side_effect_no_dict:(.*?)^\t;", yy, re.S | re.M)
-    if not m:
-        raise Lost("config_parser.yy: nonterminal rterm_no_side_effect_no_dict not found")
-    body = m.group(1)
-    unary = []
-    for um in UNRULE.finditer(body):
-        first, prec, action = um.group(1), um.group(2), um.group(3)
-        cm = re.search(r"new\s+([A-Za-z]+Expression)\s*\(", action)
-        if cm:
-            cls = cm.group(1)
-            if cls == "SubtractExpression" and "MakeLiteral(0)" in action:
-                cls = "SubtractExpression(0,_)"
-        elif re.search(r"\$\$\s*=\s*\$2\s*;", action):
-            cls = "identity"
-        else:
-            raise Lost("config_parser.yy: cannot read the action of prefix rule %s rterm" % first)
-        unary.append((first, prec or first, cls))
+        raise Lost("config_parser.yy: expected the 20 `rterm TOKEN rterm { … XExpression … }` rules, found %d" % len(binary))
     if len(unary) < 6:
         raise Lost("config_parser.yy: expected the 6 prefix-operator rules (! ~ + - & *), found %d" % len(unary))
-    postfix = []
-    if re.search(r"\|\s*rterm\s+'\.'\s+T_IDENTIFIER\b", body):
-        postfix.append("'.'")
-    if re.search(r"\|\s*rterm\s+'\['\s+rterm\s+'\]'", body):
-        postfix.append("'['")
-    if re.search(r"rterm_side_effect:\s*rterm\s+'\('\s+rterm_items\s+'\)'", yy):
-        postfix.append("'('")
+    postfix = sorted(set(postfix), key=["'.'", "'['", "'('"].index)
     if len(postfix) != 3:
         raise Lost("config_parser.yy: postfix rules (member, subscript, call) not found: have " + " ".join(postfix))
-    ternary = re.search(r"\|\s*rterm\s+'\?'\s+rterm\s+':'\s+rterm", yy) is not None
-    setrule = re.search(r"\|\s*rterm\s+combined_set_op\s+rterm", yy) is not None
-    if not ternary or not setrule:
+    if not seen_ternary or not seen_set:
         raise Lost("config_parser.yy: ternary / assignment rule not found")
-    return binary, unary, postfix
+    return sorted(binary.items()), unary, postfix
 
 
 def extract(repo):
